@@ -418,6 +418,12 @@ func (ex *Exec) merge(c *Term, a, b Value) (Value, bool) {
 			tv[i] = v
 		}
 		return tv, true
+	case ReflType:
+		y, ok := b.(ReflType)
+		if ok && types.Identical(x.T, y.T) {
+			return x, true
+		}
+		return nil, false
 	case nil:
 		if b == nil {
 			return nil, true
